@@ -118,6 +118,9 @@ func observeBackendRequest(sc *Scenario, w http.ResponseWriter, r *http.Request)
 		}
 	}
 	classifyBackendRequest(sc, v, r)
+	if sc.Backend.CloseBody && sc.Backend.CloseAfterWrites == 0 {
+		_ = r.Body.Close()
+	}
 	return v
 }
 
@@ -484,6 +487,7 @@ type builtResponse struct {
 	Trailer     http.Header
 	NoBody      bool
 	CL          *int // overrides the declared Content-Length (fault injection)
+	reqBody     io.Closer
 }
 
 func pickResponseCompression(sc *Scenario, v *BackendView) string {
@@ -723,7 +727,12 @@ func buildResponse(sc *Scenario, v *BackendView) *builtResponse {
 }
 
 func respond(sc *Scenario, v *BackendView, w http.ResponseWriter) {
+	respondWithBody(sc, v, w, nil)
+}
+
+func respondWithBody(sc *Scenario, v *BackendView, w http.ResponseWriter, reqBody io.Closer) {
 	resp := buildResponse(sc, v)
+	resp.reqBody = reqBody
 	for _, o := range sc.Backend.Override {
 		resp.Header.Del(o.K)
 		if o.V != "" {
@@ -800,6 +809,9 @@ func writeResponse(sc *Scenario, resp *builtResponse, w http.ResponseWriter) {
 		}
 		body = body[n:]
 		writes++
+		if b.CloseBody && b.CloseAfterWrites > 0 && writes == b.CloseAfterWrites && resp.reqBody != nil {
+			_ = resp.reqBody.Close()
+		}
 		if fl != nil && b.FlushEvery > 0 && writes%b.FlushEvery == 0 {
 			fl.Flush()
 		}
